@@ -1869,6 +1869,15 @@ bool tNMEA2000::TestHandleTPMessage(unsigned long PGN, unsigned char Source, uns
         uint8_t TPMaxPackets=buf[Index++];
         //Index++; // reserved
 
+        // Only one transport session can be open from one source to one destination. A new announcement replaces a session
+        // that is still open for an other PGN (its originator gave up). Otherwise data packets of the new session would be
+        // added to the old one, because data packets are matched by source and destination only.
+        for (uint8_t i=0; i<MaxN2kCANMsgs; i++) {
+          if ( !N2kCANMsgBuf[i].FreeMsg && N2kCANMsgBuf[i].N2kMsg.IsTPMessage()
+               && N2kCANMsgBuf[i].N2kMsg.Source==Source && N2kCANMsgBuf[i].N2kMsg.Destination==Destination
+               && N2kCANMsgBuf[i].N2kMsg.PGN!=TransportPGN ) N2kCANMsgBuf[i].FreeMessage();
+        }
+
         FindFreeCANMsgIndex(TransportPGN,Source,Destination,true,MsgIndex);
 
         if (MsgIndex==MaxN2kCANMsgs) { // No free msg place
